@@ -196,6 +196,24 @@ fn vp_native_chunked_truncation_corruption_faults_body() {
             }
         }
     }
+    // an interrupted transport read (EINTR) is not an error of the body: std's read_to_end / read_to_string / io::copy - which the
+    // convenience readers are built on - retry it without telling the caller, so whatever they return as complete must be complete
+    for base in &bases {
+        let mut variants: Vec<Vec<u8>> = (0..base.len()).map(|cut| base[..cut].to_vec()).collect();
+        variants.push(base.clone());
+        for wire in &variants {
+            let (owed, clean) = fut(wire);
+            for seg in [1usize, 3, 64] { for cap in [1usize, 5, 8192] { for fail in 0..14usize { for helper in 0..2 {
+                let mut r = ChunkedReader::new(BufReader::with_capacity(cap, Script { data: wire, pos: 0, seg, calls: 0, fail_at: Some(fail), kind: io::ErrorKind::Interrupted, sticky: false }));
+                let mut got = Vec::new();
+                let res = if helper == 0 { r.read_to_end(&mut got).map(|_| ()) } else { io::copy(&mut r, &mut got).map(|_| ()) };
+                cases += 1; crate::verif_native_watchdog::progress();
+                if res.is_ok() { assert!(clean && got == owed, "a body read to its end through std ({}) came back complete with {:?} although the wire {:?} delivers {:?} (complete: {}); transport read #{} was interrupted once, segments of {}, BufReader capacity {}",
+                    if helper == 0 { "read_to_end" } else { "io::copy" }, String::from_utf8_lossy(&got), String::from_utf8_lossy(wire), String::from_utf8_lossy(&owed), clean, fail, seg, cap); }
+                assert!(got.len() <= owed.len() && got[..] == owed[..got.len()], "handed out {:?}, not a prefix of the payload {:?} (interrupted read #{})", got, owed, fail);
+            } } } }
+        }
+    }
     println!("VP-NATIVE chunked_truncation_corruption_faults cases={}", cases);
 }
 
